@@ -102,8 +102,27 @@ func newLinkedPair(storeA, storeB config.Store, abGate, baGate func(int, []byte)
 	return linkNodes(w, A, B, abGate, baGate)
 }
 
+// slowCloseConn is a connection whose Close takes a while (a TLS close_notify, SO_LINGER, a proxied
+// transport): whatever the link does between deciding to close and the connection being gone has
+// time to show on the wire.
+type slowCloseConn struct {
+	net.Conn
+	delay time.Duration
+}
+
+func (c *slowCloseConn) Close() error {
+	time.Sleep(c.delay)
+	return c.Conn.Close()
+}
+
+var linkCloseDelayA time.Duration // when > 0: A's end of the next linked pair closes slowly
+
 func linkNodes(w *rworld, A, B *rnode, abGate, baGate func(int, []byte)) (*linkedPair, error) {
-	a1, a2 := net.Pipe()
+	a1raw, a2 := net.Pipe()
+	var a1 net.Conn = a1raw
+	if linkCloseDelayA > 0 {
+		a1 = &slowCloseConn{Conn: a1raw, delay: linkCloseDelayA}
+	}
 	b1, b2 := net.Pipe()
 	p := &linkedPair{w: w, A: A, B: B, connA: a1, connB: b2,
 		ab: &wireDir{handshake: 3, closed: make(chan struct{}), gate: abGate},
